@@ -1,4 +1,5 @@
 import IgrisModel.C11.Lemmas
+import IgrisModel.C11.More
 /-! Lemmas of extension round 3: rand.c, uniqueness of the ordered key sequence,
 which element bsearch returns. -/
 namespace Igris.C11
@@ -68,5 +69,61 @@ theorem sorted_keys_unique {α : Type} (key : α → Int) (cmp : α → α → I
       (by intro a b; simp only [Bool.or_eq_true, decide_eq_true_eq]; omega) (a.map key)
     exact this.imp (fun {x y} h => by simpa using h)
   · exact (hperm.map key).trans (List.mergeSort_perm _ _).symm
+
+/-! ### the run of equal elements around ANY equal element is the bracket of the two bounds -/
+
+theorem takeWhile_length_eq {α : Type} (p : α → Bool) : ∀ (l : List α) (k : Nat), k ≤ l.length →
+    (∀ j (h : j < l.length), j < k → p l[j] = true) → (∀ j (h : j < l.length), k ≤ j → p l[j] = false) →
+    (l.takeWhile p).length = k := by
+  intro l
+  induction l with
+  | nil => intro k hk _ _; simp at hk; simp [hk]
+  | cons x xs ih =>
+    intro k hk h1 h2
+    cases k with
+    | zero =>
+      have := h2 0 (by simp) (Nat.le_refl _)
+      simp only [List.getElem_cons_zero] at this
+      simp [this]
+    | succ k =>
+      have hx := h1 0 (by simp) (by omega)
+      simp only [List.getElem_cons_zero] at hx
+      simp only [List.takeWhile_cons, hx, if_true, List.length_cons]
+      have := ih k (by simpa using hk)
+        (by intro j hj hjk; have := h1 (j + 1) (by simpa using hj) (by omega); simpa using this)
+        (by intro j hj hjk; have := h2 (j + 1) (by simpa using hj) (by omega); simpa using this)
+      omega
+
+theorem equalRun_eq {κ α : Type} (cmp : κ → α → Int) (key : κ) (a : List α) (lo hi i : Nat)
+    (hhi : hi ≤ a.length) (hlo : lo ≤ i) (hih : i < hi)
+    (hin : ∀ j (h : j < a.length), lo ≤ j → j < hi → cmp key a[j] = 0)
+    (hbelow : ∀ j (h : j < a.length), j < lo → cmp key a[j] ≠ 0)
+    (habove : ∀ j (h : j < a.length), hi ≤ j → cmp key a[j] ≠ 0) :
+    equalRun cmp key a i = (lo, hi - 1) := by
+  unfold equalRun
+  have h1 : ((a.take i).reverse.takeWhile fun x => cmp key x == 0).length = i - lo := by
+    apply takeWhile_length_eq
+    · simp only [List.length_reverse, List.length_take]; omega
+    · intro j hj hjk
+      simp only [List.length_reverse, List.length_take] at hj
+      simp only [List.getElem_reverse, List.getElem_take, List.length_take, beq_iff_eq]
+      apply hin <;> omega
+    · intro j hj hjk
+      simp only [List.length_reverse, List.length_take] at hj
+      simp only [List.getElem_reverse, List.getElem_take, List.length_take, beq_eq_false_iff_ne]
+      apply hbelow; omega
+  have h2 : ((a.drop (i + 1)).takeWhile fun x => cmp key x == 0).length = hi - 1 - i := by
+    apply takeWhile_length_eq
+    · simp only [List.length_drop]; omega
+    · intro j hj hjk
+      simp only [List.length_drop] at hj
+      simp only [List.getElem_drop, beq_iff_eq]
+      apply hin <;> omega
+    · intro j hj hjk
+      simp only [List.length_drop] at hj
+      simp only [List.getElem_drop, beq_eq_false_iff_ne]
+      apply habove; omega
+  rw [h1, h2]
+  congr 1 <;> omega
 
 end Igris.C11
